@@ -13,6 +13,7 @@ import (
 	"math"
 	"math/big"
 	"reflect"
+	"sort"
 	"strings"
 	"time"
 
@@ -314,11 +315,27 @@ func (w *evWorld) followEvidence(e *psatoken.Evidence, out *[]string) {
 		return
 	}
 	followClaims(e.Claims, out)
-	rec(func() { e.Verify(w.kr["ES256"]["k1"].pub) })
-	rec(func() { e.Verify(w.kr["EdDSA"]["k1"].pub) })
-	rec(func() { e.Verify(w.kr["PS256"]["k2"].pub) })
-	rec(func() { e.Verify(nil) })
-	rec(func() { e.Verify("not a key") })
+	// "verified against any key": a key of every algorithm the ring holds (so that the token's own algorithm meets a key
+	// of its family whatever it is), each one twice in a row and once more after the others - a verifier, key or
+	// outcome remembered from one call must not make a later call on the same Evidence panic
+	for round := 0; round < 2; round++ {
+		for _, alg := range sortedAlgs(w.kr) {
+			k := "k1"
+			if alg == "PS256" {
+				k = "k2"
+			}
+			kp, ok := w.kr[alg][k]
+			if !ok {
+				continue
+			}
+			rec(func() { e.Verify(kp.pub) })
+			if round == 0 {
+				rec(func() { e.Verify(kp.pub) })
+			}
+		}
+		rec(func() { e.Verify(nil) })
+		rec(func() { e.Verify("not a key") })
+	}
 	rec(func() { e.MarshalJSON() })
 	rec(func() { e.GetInstanceID(); e.GetImplementationID() })
 }
@@ -458,7 +475,7 @@ func init() {
 		var plan bytesPlan
 		loadJSON(a.In, &plan)
 		d := loadDomains(a.In2)
-		cc := Conc{a.Rand()}
+		cc := Conc{r: a.Rand()}
 		w := newEvWorld([]string{"ES256", "EdDSA", "PS256"}, cc, d)
 		entries := mkEntries(w)
 		t := NewTracer(a.Out)
@@ -538,8 +555,19 @@ func init() {
 			s.Vals["profile"] = V{K: "prof", S: []any{X2Name}}
 			seeds = append(seeds, seed{"X2:full", "cbor", cc.DocCBOR(s)})
 		}
-		for _, id := range []string{"cA", "cB"} {
-			seeds = append(seeds, seed{"cose:" + id, "cose", assembleSign1(protectedBytes("ES256"), w.enc[id], false, w.goodSig[sigID{"k1", "ES256", id}])})
+		// signed seeds: one per signature family, so that every follow-up Verify meets a token of its key's algorithm
+		for _, sa := range [][2]string{{"cA", "ES256"}, {"cB", "EdDSA"}} {
+			id, alg := sa[0], sa[1]
+			sig, ok := w.goodSig[sigID{"k1", alg, id}]
+			if !ok {
+				fatal("no signature for %s/%s", alg, id)
+			}
+			seeds = append(seeds, seed{"cose:" + id, "cose", assembleSign1(protectedBytes(alg), w.enc[id], false, sig)})
+		}
+		if sig, ok := w.goodSig[sigID{"k2", "PS256", "cA"}]; ok {
+			present("cose", "seed", assembleSign1(protectedBytes("PS256"), w.enc["cA"], false, sig))
+		} else {
+			fatal("no PS256 signature")
 		}
 		for _, sd := range seeds {
 			present(sd.format, "seed", sd.bytes)
@@ -876,4 +904,13 @@ func init() {
 		}
 		t.Close(map[string]any{"by_kind": bykind})
 	}
+}
+
+func sortedAlgs(kr keyring) []string {
+	as := make([]string, 0, len(kr))
+	for a := range kr {
+		as = append(as, a)
+	}
+	sort.Strings(as)
+	return as
 }
